@@ -312,7 +312,10 @@ def main():
         # chunked to bound memory / allow early exit
         step = 400 if len(cases) <= 20000 else 20000
         for i in range(0, len(cases), step):
-            findings += evaluate(P, cases[i:i + step], stats)
+            chunk = cases[i:i + step]
+            # each chunk is one python process: its first cases are run AGAIN at its end, after everything else in the
+            # chunk has had its chance to leave state behind (type-level caches, module-level scratch state)
+            findings += evaluate(P, chunk + chunk[:30], stats)
             if len([f for f in findings if f['cls'] == 'prop']) >= 5:
                 break
     except Infra as e:
